@@ -1,7 +1,6 @@
 package main
 
 import (
-	"fmt"
 	"go/ast"
 	"go/token"
 	"go/types"
@@ -295,6 +294,8 @@ func (t *tr) composite(x *ast.CompositeLit) {
 		t.valueUse(v)
 		if tg := t.tagOf(v); tg.k == 'F' {
 			t.merge(own.region, tg.region)
+		} else {
+			t.storeShared(own, tg, t.typeOf(v))
 		}
 	}
 }
@@ -344,6 +345,12 @@ func (t *tr) vecForCall(fn *types.Func, recv ast.Expr, c *ast.CallExpr) ([]byte,
 // lockClass determines the class of the mutex designated by the receiver
 // expression of a lock operation.
 func (t *tr) lockClass(e ast.Expr, p token.Pos) (lclass, bool) {
+	return t.lockClassField(e, "", p)
+}
+
+// lockClassField: as lockClass; field names the mutex field when e is the
+// object that owns it (call of a lock wrapper).
+func (t *tr) lockClassField(e ast.Expr, field string, p token.Pos) (lclass, bool) {
 	e = unparen(e)
 	owner := e
 	if ty := t.typeOf(e); ty != nil && fromSync(ty) {
@@ -357,10 +364,15 @@ func (t *tr) lockClass(e ast.Expr, p token.Pos) (lclass, bool) {
 			return lclass{}, false
 		}
 		owner = se.X
+		field = se.Sel.Name
 	}
 	switch t.w.pkgNamed(t.typeOf(owner)) {
 	case "DB":
-		return lHandle, true
+		if cl, ok := dbLockClass(field); ok {
+			return cl, true
+		}
+		t.w.failClosed(p, "lock operation on a mutex field of DB of unknown class (%q)", field)
+		return lclass{}, false
 	case "objectStore", "objectMap":
 		kind := 1
 		if t.w.pkgNamed(t.typeOf(owner)) == "objectMap" {
@@ -460,7 +472,7 @@ func (t *tr) callParts(c *ast.CallExpr) (pre, ev *node) {
 		}
 		if p := t.w.prims[fn]; p != nil {
 			pre = t.capture(func() { t.expr(recv) })
-			if cl, ok := t.lockClass(recv, c.Pos()); ok {
+			if cl, ok := t.lockClassField(recv, p.field, c.Pos()); ok {
 				return pre, lockNode(p.method, cl, c.Pos())
 			}
 			return pre, nil
@@ -482,6 +494,9 @@ func (t *tr) callParts(c *ast.CallExpr) (pre, ev *node) {
 		t.args(c)
 	})
 	t.unmarshalRule(fn, c)
+	if ev := t.marshalRule(fn, c); ev != nil {
+		return seq(pre, ev), nil
+	}
 	return pre, nil
 }
 
@@ -580,6 +595,7 @@ func (t *tr) builtin(name string, c *ast.CallExpr) {
 			base := t.tagOf(c.Args[0])
 			for _, a := range c.Args[1:] {
 				t.store(base, t.tagOf(a))
+				t.storeShared(base, t.tagOf(a), t.typeOf(a))
 			}
 		}
 	case "copy":
@@ -587,6 +603,7 @@ func (t *tr) builtin(name string, c *ast.CallExpr) {
 			t.expr(c.Args[1])
 			t.write(c.Args[0])
 			t.store(t.tagOf(c.Args[0]), t.tagOf(c.Args[1]))
+			t.storeShared(t.tagOf(c.Args[0]), t.tagOf(c.Args[1]), t.typeOf(c.Args[1]))
 		}
 	case "delete":
 		if len(c.Args) == 2 {
@@ -753,4 +770,113 @@ func (t *tr) goStmt(g *ast.GoStmt) {
 	t.emit(&node{kind: nGo, callee: sp, pos: g.Pos()})
 }
 
-var _ = fmt.Sprintf
+// ---- reflective readers (encoding/json.Marshal) ----------------------------------
+
+// marshalRule: an encoding function reads, by reflection, every exported
+// field reachable from its argument, and calls the MarshalJSON methods it
+// meets. The reads of fields of tracked types are emitted as accesses; a
+// MarshalJSON method defined in the package becomes a call to it.
+func (t *tr) marshalRule(fn *types.Func, c *ast.CallExpr) *node {
+	if fn.Pkg() == nil || !t.w.marshal[fn.Pkg().Path()+"."+fn.Name()] {
+		return nil
+	}
+	ev := t.capture(func() {
+		for _, a := range c.Args {
+			t.deepReadsExpr(a)
+		}
+	})
+	if isEmpty(ev) {
+		return nil
+	}
+	return ev
+}
+
+// deepReadsExpr: a composite literal argument is read element by element
+// (each element has its own ownership); anything else through its type.
+func (t *tr) deepReadsExpr(e ast.Expr) {
+	x := unparen(e)
+	if u, ok := x.(*ast.UnaryExpr); ok && u.Op == token.AND {
+		x = unparen(u.X)
+	}
+	if cl, ok := x.(*ast.CompositeLit); ok {
+		for _, el := range cl.Elts {
+			if kv, ok := el.(*ast.KeyValueExpr); ok {
+				el = kv.Value
+			}
+			t.deepReadsExpr(el)
+		}
+		return
+	}
+	t.deepReads(t.typeOf(e), t.tagOf(e), e.Pos(), map[string]bool{}, 0)
+}
+
+func (t *tr) marshalMethod(named *types.Named) *types.Func {
+	if named.Obj().Pkg() != t.w.pkg.Types {
+		return nil
+	}
+	for _, ty := range []types.Type{named, types.NewPointer(named)} {
+		ms := types.NewMethodSet(ty)
+		for i := 0; i < ms.Len(); i++ {
+			if fn, ok := ms.At(i).Obj().(*types.Func); ok && fn.Name() == "MarshalJSON" && t.w.decls[fn] != nil {
+				return fn
+			}
+		}
+	}
+	return nil
+}
+
+func (t *tr) deepReads(ty types.Type, own tag, p token.Pos, seen map[string]bool, depth int) {
+	if ty == nil || depth > 10 {
+		return
+	}
+	for isPointer(ty) {
+		ty = deref(ty)
+	}
+	if t.isDBType(ty) {
+		own = tagS
+	}
+	if named, ok := ty.(*types.Named); ok {
+		key := named.String() + "/" + string(own.k)
+		if seen[key] {
+			return
+		}
+		seen[key] = true
+		if m := t.marshalMethod(named); m != nil {
+			if t.sp != nil && t.sp.fn == m {
+				return // the method's own call of the encoder on its receiver's content
+			}
+			sl := t.w.slots(m)
+			vec := make([]byte, len(sl))
+			for i, s := range sl {
+				vec[i] = slotTag(s, tagS)
+			}
+			if len(sl) > 0 {
+				vec[0] = slotTag(sl[0], own)
+			}
+			sp := t.w.getSpec(m, vec)
+			t.w.ensure(sp)
+			t.emit(&node{kind: nCall, callee: sp, pos: p, note: "called by the encoder"})
+			return
+		}
+	}
+	switch u := ty.Underlying().(type) {
+	case *types.Struct:
+		tn := t.w.trackedName(ty)
+		for i := 0; i < u.NumFields(); i++ {
+			f := u.Field(i)
+			if (!f.Exported() && !f.Embedded()) || fromSync(f.Type()) {
+				continue
+			}
+			if tn != "" {
+				t.access(tn, f.Name(), false, own, p)
+			}
+			t.deepReads(f.Type(), own, p, seen, depth+1)
+		}
+	case *types.Slice:
+		t.deepReads(u.Elem(), own, p, seen, depth+1)
+	case *types.Array:
+		t.deepReads(u.Elem(), own, p, seen, depth+1)
+	case *types.Map:
+		t.deepReads(u.Elem(), own, p, seen, depth+1)
+	}
+}
